@@ -36,16 +36,22 @@ class SpecGen:
     def item_spec(self, v, as_type=False):
         """An item of a list argument / a value of a mapping argument (from_spec looks one level down)."""
         if isinstance(v, PathT):
-            return self.path_spec(v)
+            return self.spelled_path(v)
         if as_type and isinstance(v, type):
             return self.type_spelling(v)
         if isinstance(v, dict):
             return self.esc(v)
         return v
 
+    def spelled_path(self, a):
+        s = self.path_spec(a)
+        if s is None:
+            raise Unspellable()
+        return s
+
     def arg_spec(self, a, as_type=False):
         if isinstance(a, PathT):
-            return self.path_spec(a)
+            return self.spelled_path(a)
         if as_type and isinstance(a, type):
             return self.type_spelling(a)
         if isinstance(a, dict):
@@ -104,6 +110,12 @@ class SpecGen:
         return None
 
     def cond_spec(self, t):
+        try:
+            return self._cond_spec(t)
+        except Unspellable:
+            return None
+
+    def _cond_spec(self, t):
         if isinstance(t, Null):
             return self.r.choice([{}, None]) if self.r.random() < 0.5 else {}
         if isinstance(t, Leaf):
@@ -114,7 +126,7 @@ class SpecGen:
             items.insert(0, cur.b)
             cur = cur.a
         items.insert(0, cur)
-        specs = [self.cond_spec(i) for i in items]
+        specs = [self._cond_spec(i) for i in items]
         if any(s is None for s in specs):
             return None
         return {t.op: specs}
@@ -132,14 +144,19 @@ class SpecGen:
                 continue
             if a.is_lit:
                 cls = {"key": "key", "index": "index", "value": "value"}[k]
-                d[f"{cls}.equal_to"] = a.lit
+                d[f"{cls}.equal_to"] = self.arg_spec(a.lit)     # a literal mapping that looks like a path spec is escaped
             else:
+                if isinstance(a.cond, Null) or not a.cond.leaves():
+                    continue          # a null condition is the same as no condition; it has no spelling under key / index / value
                 s = self.cond_spec(a.cond)
                 if s is None:
                     return None
                 if k in ("key", "index", "value") and isinstance(a.cond, Leaf) and self.r.random() < 0.4:
                     (kk, vv), = s.items()
-                    d[kk] = vv
+                    # the shorthand is recognised by its lower-case datum prefix ("value." / "key." / "index."): in any other
+                    # case the entry is an unknown argument of the part (ValueError), not a spelling
+                    head, _, tail = kk.partition(".")
+                    d[head.lower() + "." + tail] = vv
                 else:
                     d[k] = s
         if p.label is not None:
@@ -156,6 +173,10 @@ class SpecGen:
 
 
 NAMED_TYPES = (int, float, str, list, dict, bool)
+
+
+class Unspellable(Exception):
+    """A term that has no spelling in the spec language (a data-path argument with a part that cannot be written)."""
 
 
 def delist(a):
